@@ -1744,6 +1744,162 @@ theorem fileView_parse_render (σ : IniSpec.Style) (d : IniSpec.Doc) (hwf : IniS
   | none => simp [sectionView_secOf]
   | some y => simp [sectionView_secOf]
 
+/-! ## the round trip as it was stated before repeated headers, `key =` and blanks inside quotes were admitted -/
+
+theorem distinct_inj {α} (g : α → Bytes) (l : List α) (h : IniSpec.distinct (l.map g) = true) :
+    ∀ a ∈ l, ∀ b ∈ l, g a = g b → a = b := by
+  induction l with
+  | nil => intro a ha; simp at ha
+  | cons x rest ih =>
+    simp only [List.map_cons, IniSpec.distinct, Bool.and_eq_true, Bool.not_eq_true', List.contains_eq_mem,
+      decide_eq_false_iff_not, List.mem_map, not_exists, not_and] at h
+    intro a ha b hb hab
+    simp only [List.mem_cons] at ha hb
+    rcases ha with ha | ha <;> rcases hb with hb | hb
+    · rw [ha, hb]
+    · subst ha; exact absurd hab.symm (h.1 b hb)
+    · subst hb; exact absurd hab (h.1 a ha)
+    · exact ih h.2 a ha b hb hab
+
+theorem find?_of_inj {α} (g : α → Bytes) (l : List α) (hinj : ∀ a ∈ l, ∀ b ∈ l, g a = g b → a = b)
+    (x : α) (hx : x ∈ l) : l.find? (fun y => g y == g x) = some x := by
+  induction l with
+  | nil => simp at hx
+  | cons y l ih =>
+    simp only [List.find?_cons]
+    by_cases hy : g y = g x
+    · have : y = x := hinj y (by simp) x hx hy
+      subst this; simp
+    · have hne : (g y == g x) = false := by simp [hy]
+      simp only [hne]
+      have hx' : x ∈ l := by
+        simp only [List.mem_cons] at hx
+        rcases hx with hx | hx
+        · subst hx; exact absurd rfl hy
+        · exact hx
+      exact ih (fun a ha b hb => hinj a (by simp [ha]) b (by simp [hb])) hx'
+
+theorem mem_lookupOrder (all : List IniSpec.Sec) (s : IniSpec.Sec) : s ∈ IniSpec.lookupOrder all ↔ s ∈ all := by
+  unfold IniSpec.lookupOrder
+  cases hr : all.reverse with
+  | nil =>
+    have : all = [] := by simpa using hr
+    simp [this]
+  | cons last initRev =>
+    have hs : all = initRev.reverse ++ [last] := by
+      have := congrArg List.reverse hr
+      simpa using this
+    rw [hs]; simp
+
+/-- with distinct names a look-up sees *the* section of that name -/
+theorem seenSec_of_distinct (all : List IniSpec.Sec) (hd : IniSpec.distinct (all.map (·.header.name)) = true)
+    (s : IniSpec.Sec) (hs : s ∈ all) (ha : s.assigns = true) : IniSpec.seenSec all s.header.name = some s := by
+  unfold IniSpec.seenSec
+  apply find?_of_inj (fun x : IniSpec.Sec => x.header.name)
+  · intro a ha' b hb' hab
+    exact distinct_inj _ all hd a ((mem_lookupOrder all a).mp (List.mem_filter.mp ha').1)
+      b ((mem_lookupOrder all b).mp (List.mem_filter.mp hb').1) hab
+  · exact List.mem_filter.mpr ⟨(mem_lookupOrder all s).mpr hs, ha⟩
+
+theorem meaningOf_eq (secs : List IniSpec.Sec) :
+    IniSpec.meaningOf secs
+      = (secs.filter IniSpec.Sec.assigns).map fun s => (s.header.name, IniSpec.assoc (IniSpec.entriesOf s.body)) := by
+  induction secs with
+  | nil => rfl
+  | cons s rest ih =>
+    have ih' : List.filterMap (fun s : IniSpec.Sec =>
+        if (IniSpec.entriesOf s.body).isEmpty = true then none
+        else some (s.header.name, IniSpec.assoc (IniSpec.entriesOf s.body))) rest = _ := ih
+    simp only [IniSpec.meaningOf, List.filterMap_cons, List.filter_cons, IniSpec.Sec.assigns]
+    by_cases he : (IniSpec.entriesOf s.body).isEmpty = true
+    · simp only [he, if_true, Bool.not_true, Bool.false_eq_true, if_false]; exact ih'
+    · simp only [he, if_false, Bool.not_false, if_true, Bool.false_eq_true, List.map_cons]; rw [ih']
+
+/-- with distinct section names every section is read on its own -/
+theorem meaningIn_of_distinct (all : List IniSpec.Sec) (hd : IniSpec.distinct (all.map (·.header.name)) = true)
+    (secs : List IniSpec.Sec) (hsub : ∀ s ∈ secs, s ∈ all) : IniSpec.meaningIn all secs = IniSpec.meaningOf secs := by
+  rw [meaningOf_eq]
+  unfold IniSpec.meaningIn
+  apply List.map_congr_left
+  intro s hs
+  obtain ⟨hs1, hs2⟩ := List.mem_filter.mp hs
+  simp [IniSpec.viewOf, seenSec_of_distinct all hd s (hsub s hs1) hs2]
+
+/-- every `key = value` line read literally: the key and value fields as they are -/
+def literalEntries (body : List IniSpec.Line) : List (Bytes × Bytes) :=
+  body.filterMap fun l => match l.body with
+    | .entry e => some (e.key, e.value)
+    | _ => none
+
+def literalMeaning (secs : List IniSpec.Sec) : List (Bytes × List (Bytes × Bytes)) :=
+  secs.filterMap fun s =>
+    let es := literalEntries s.body
+    if es.isEmpty then none else some (s.header.name, IniSpec.assoc es)
+
+/-- what `Entry.wf` used to demand of a value: unquoted → not empty; quoted → empty or without blanks at its ends -/
+def entryStrict (e : IniSpec.Entry) : Bool :=
+  match e.quote with
+  | .none => !e.value.isEmpty
+  | _ => e.value.isEmpty || IniSpec.trimmed e.value
+
+def bodyStrict (body : List IniSpec.Line) : Bool :=
+  body.all fun l => match l.body with
+    | .entry e => entryStrict e
+    | _ => true
+
+/-- the restrictions the former `WF` had on top of the present one -/
+def Strict (d : IniSpec.Doc) : Bool :=
+  IniSpec.distinct (d.secs.map (·.header.name)) && d.secs.all fun s => bodyStrict s.body
+
+theorem trim_of_trimmed (v : Bytes) (h : IniSpec.trimmed v = true) : IniSpec.trim v = v := by
+  rw [← chomp_eq_trim]
+  have := chomp_of_trimmed_append v [] (trimmed_Trimmed h) (by intro x hx; simp at hx)
+  simpa using this
+
+theorem binding_strict (e : IniSpec.Entry) (h : entryStrict e = true) : e.binding = some (e.key, e.value) := by
+  unfold entryStrict at h
+  unfold IniSpec.Entry.binding
+  cases hq : e.quote with
+  | none => rw [hq] at h; simp only [Bool.not_eq_true'] at h; simp [h]
+  | single =>
+    rw [hq] at h
+    simp only [Bool.or_eq_true, List.isEmpty_iff] at h
+    rcases h with h | h
+    · rw [h]; rfl
+    · simp [trim_of_trimmed _ h]
+  | double =>
+    rw [hq] at h
+    simp only [Bool.or_eq_true, List.isEmpty_iff] at h
+    rcases h with h | h
+    · rw [h]; rfl
+    · simp [trim_of_trimmed _ h]
+
+theorem filterMap_congr' {α β} (f g : α → Option β) (l : List α) (h : ∀ x ∈ l, f x = g x) :
+    l.filterMap f = l.filterMap g := by
+  induction l with
+  | nil => rfl
+  | cons x l ih =>
+    simp only [List.filterMap_cons, h x (by simp)]
+    rw [ih (fun y hy => h y (by simp [hy]))]
+
+theorem entriesOf_strict (body : List IniSpec.Line) (h : bodyStrict body = true) :
+    IniSpec.entriesOf body = literalEntries body := by
+  unfold IniSpec.entriesOf literalEntries
+  apply filterMap_congr'
+  intro l hl
+  have := (List.all_eq_true.mp h) l hl
+  cases hb : l.body with
+  | blank ws => rfl
+  | comment lead c => rfl
+  | entry e => rw [hb] at this; exact binding_strict e this
+
+theorem meaningOf_strict (secs : List IniSpec.Sec) (h : ∀ s ∈ secs, bodyStrict s.body = true) :
+    IniSpec.meaningOf secs = literalMeaning secs := by
+  unfold IniSpec.meaningOf literalMeaning
+  apply filterMap_congr'
+  intro s hs
+  simp only [entriesOf_strict s.body (h s hs)]
+
 /-! ## getters -/
 
 theorem isKeyExists_iff (f : IniFile) (n k : Bytes) : isKeyExists f n k = (findParameter f n k).isSome := by
